@@ -14,4 +14,6 @@ CP_D == <<"get", "empty", "get", "get", "get", "empty", "get", "get">>
 PEmp == [k |-> "empty", d |-> 0]
 PP_E == <<Put(7), PEmp, PutC(9), PEmp, Put(11)>>
 CP_E == <<"get", "empty", "get", "get">>
+PP_W == <<Put(3), Put(4), PEmp>>
+CP_W == <<"wait", "get", "empty", "wait", "get">>
 =============================================================================
